@@ -13,7 +13,7 @@ using namespace yaclib::detail;
 struct KJob;
 static bool CountIsZero();           // once the count is zero it stays zero (Add is only legal while it is non-zero)
 struct KJob final : Job {
-  void Call() noexcept final { ++calls; if (!CountIsZero()) early = 1; }
+  void Call() noexcept final { ++calls; if (!CountIsZero()) early = 1; vp_hb_read(0); vp_hb_read(1); }   // C04: what the Done threads wrote before Done is read by the released waiter
   unsigned calls = 0, early = 0, added = 2;
 };
 using GroupEvent = MultiEvent<OneShotEvent, AtomicCounter, CallCallback, DropCallback>;
@@ -31,8 +31,9 @@ extern "C" void c16k_prologue(unsigned count) {
   new (vp_obj_j1) KJob{};
 }
 // WaitGroup::Done() = _event.Sub(1) -> SubEqual -> SetDeleter -> OneShotEvent::Set ; WaitGroup::Add(n) = _event.Add(n)
-extern "C" void c16k_done() { EV.Sub(1); }
-extern "C" void c16k_add_done_done() { EV.Add(1); EV.Sub(1); EV.Sub(1); }   // legal: Add while this thread still holds one
+extern "C" void c16k_done() { vp_hb_write(0); EV.Sub(1); }
+extern "C" void c16k_done_b() { vp_hb_write(1); EV.Sub(1); }
+extern "C" void c16k_add_done_done() { EV.Add(1); EV.Sub(1); vp_hb_write(1); EV.Sub(1); }   // legal: Add while this thread still holds one
 static void Register(KJob& j, unsigned i) {
   if (EV.Ready()) { g_ready_seen[i] = 1; if (!CountIsZero()) g_refused_early = 1; }   // what await_ready does
   j.added = EV.TryAdd(j);
